@@ -16,6 +16,23 @@ CHECKS = {
    "Trusted: reflect.MakeFunc yields func types identical to hand-written callbacks (checked: constructors accept them); for type arrays the 'own type' is the first element the vocabularies define.",
    "DESIGN.md 5/C14"),
 }
+CHECKS.update({
+ "C01": ("streamsmon", "exploration",
+   "reference-model monitor: grammar-derived documents through the real decoder/encoder, JSON-equality and no-loss oracles",
+   "The real ToType/Serialize are run on the exhaustive (type, property, value kind) cover of the four vocabularies (about 147k documents, scalar and two-element-list forms, each with an unknown member holding null / nested array / object) plus seeded random deep documents, judged by JSON equality with @context as a set; grammar mutations and every example embedded in the vocabulary files are judged by the weaker no-silent-loss and second-round-trip rules the statement gives for merely accepted documents.",
+   "Trusted: ontology oracle (which members are known properties of a level), encoding/json. Depth <= 3 and lists <= 4; aliased contexts only under the accepted-class rules.",
+   "DESIGN.md 5/C01"),
+ "C12": ("streamsmon", "exploration",
+   "reference-model monitor: independent ontology oracle + literal-semantics table vs typed accessors (exhaustive pair spaces)",
+   "All 63x101 (type, property) pairs and all 101x(63+11+1) (property, kind) pairs are decoded from generated documents by the real code and inspected by reflection through the typed accessors; expectations come from the independent ontology oracle and a hand-written literal semantics table (RFC 3339 instants, 365-day/30-day durations, numbers, booleans, language maps). Literal kinds are sampled (boundary list + seeded random canonical forms).",
+   "Trusted: internal/onto, the literal table in cmd/streamsmon/lits.go. Lexically ambiguous samples are judged by membership in the admissible kinds.",
+   "DESIGN.md 5/C12"),
+ "C18": ("streamsmon", "exploration",
+   "reference-model monitor: every container mutator sequence vs a plain Go slice / slot, compared after each step",
+   "Every non-functional property is driven through all operation sequences (Append, Prepend, Insert, Set, Remove, Swap, element-level Set) on IRI values up to length 3 (quick) / 4-5 (thorough) from an empty and from a deserialised state, plus seeded random sequences to length 40 over every admissible kind; every functional property through all Set/Clear sequences to length 4. After each step Len, At, forward and backward walks, kind flags, typed values and Serialize are compared with the reference slice.",
+   "Trusted: reflection-based driver; values are distinct so an element identifies the operation that stored it.",
+   "DESIGN.md 5/C18"),
+})
 ALL = ["C%02d" % i for i in range(1, 21)]
 NOT_APPLICABLE = {}
 PENDING_REASON = "check not built yet in this round of work (runtime monitor planned, see DESIGN.md section 5); not claimed until it exists"
